@@ -195,10 +195,19 @@ func (rn *runner) judge(d *dataset, qi int, q *querySpec, outs []outcome) {
 			}
 			c.Count("metamorphic-comparisons-differing", 1)
 			switch {
-			case q.Meta == "" && refOK[i] && refOK[best]:
-				// both admissible: the language leaves this choice open
+			case q.Meta == "" && refOK[i] && refOK[best] && !q.Agg && (q.Limit > 0 || q.Offset > 0):
+				// the only output the language leaves unordered: rows of equal time from
+				// different series in an ungrouped selection; LIMIT/OFFSET may cut them anywhere
 				c.Count("admissible-choice-differs-between-cells", 1)
 				c.Distinct("admissible-choice-kind", choiceKind(q))
+			case q.Meta == "" && refOK[i] && refOK[best]:
+				// both answers are correct w.r.t. the language (a first/last/min/max tie), but the
+				// property demands the SAME answer in every cell
+				sig := classifyTie(q, ran[i].cell, ran[best].cell, mm)
+				addFail(sig, "metamorphic", fmt.Sprintf("both answers are admissible tie choices but differ from cell %s (cells differ in %s): %s", ran[best].cell, cellDiff(ran[i].cell, ran[best].cell), mm.String()), ran[i].cell, mm, ran[i].ans)
+				if f := fails[sig]; len(f.cells) == 1 {
+					f.cells = append(f.cells, ran[best].cell)
+				}
 			case q.Meta == "" && !refOK[i]:
 				// already reported by the reference oracle for this cell
 			default:
@@ -215,6 +224,13 @@ func (rn *runner) judge(d *dataset, qi int, q *querySpec, outs []outcome) {
 	}
 	if q.Meta == "" && getExp(false).choice() {
 		c.Count("queries-with-an-admissible-choice", 1)
+		if q.Agg {
+			// a selector tie: the metamorphic oracle demands the same choice in every cell
+			c.Count("selector-tie-queries:"+q.Func, 1)
+			for _, o := range ran {
+				c.Count(fmt.Sprintf("selector-tie-cells:inner_chunk_size=%d", o.cell.Inner), 1)
+			}
+		}
 	}
 	if maxRows == 0 {
 		c.Count("queries-with-empty-answer", 1)
@@ -443,4 +459,45 @@ func dropAllNullRows(a *answer) *answer {
 		}
 	}
 	return out
+}
+
+// classifyTie: signature of two admissible but different tie choices of a selector.
+func classifyTie(q *querySpec, a, b cell, mm *mismatch) string {
+	what := "value-differs"
+	if mm.WrongTime > 0 && mm.WrongValue == 0 {
+		what = "reported-time-differs"
+	}
+	by := "nogroup"
+	if q.Interval > 0 {
+		by = "bytime"
+	}
+	where := "cells-of-one-layout"
+	if a.Layout != b.Layout {
+		where = "cells-of-different-layouts"
+	}
+	return fmt.Sprintf("metamorphic|selector-tie|%s(%s)|%s|%s-between-%s", q.Func, kindName[fieldKinds[q.Field]], by, what, where)
+}
+
+var kindName = map[byte]string{'i': "integer", 'f': "float", 'b': "boolean", 's': "string"}
+
+// cellDiff names the execution dimensions in which two cells differ (layout and server
+// are the stored form of the data, the rest are execution knobs).
+func cellDiff(a, b cell) string {
+	var ds []string
+	add := func(c bool, n string) {
+		if c {
+			ds = append(ds, n)
+		}
+	}
+	add(a.Layout != b.Layout, "layout")
+	add(a.Pt != b.Pt, "ptnum")
+	add(a.Inner != b.Inner, "inner_chunk_size")
+	add(a.Par != b.Par, "chunk_reader_parallel")
+	add(a.BTM != b.BTM, "binary_tree_merge")
+	add(a.SWPU != b.SWPU, "sliding_window_push_up")
+	add(a.Desc != b.Desc, "order")
+	if len(ds) == 0 {
+		return "same-execution-settings"
+	}
+	return strings.Join(ds, "+")
 }
